@@ -36,8 +36,10 @@ Theorem C02_reports : forall d, DInv d ->
 Proof. exact DInv_reports. Qed.
 Print Assumptions C02_reports.
 
-(* THE SOURCE TIE for seven core mutators of DiHypergraph.  Gen/DiMutators.v holds the bodies of add_node, add_node_to_edge,
-   remove_edge, remove_edges_from, remove_node_from_edge, clear and add_edge as programs of a small imperative language,
+(* THE SOURCE TIE for eight core mutators of DiHypergraph.  Gen/DiMutators.v holds the bodies of add_node, add_node_to_edge,
+   remove_edge, remove_edges_from, remove_node_from_edge, clear, add_edge and remove_node (strong and weak; the code deletes the node
+   first and skips it afterwards, the model unlinks the edges completely and deletes the node last - the proof shows the two orders
+   give the same tables) as programs of a small imperative language,
    regenerated from xgi/core/dihypergraph.py on every run (harness/translate_dimutators.py, fail-closed).  Model/PyIRD.v gives
    their meaning on the two-sided model state: self._node[n]["out"] / self._edge[e]["in"] live on the tail side,
    self._node[n]["in"] / self._edge[e]["out"] on the head side, a key test reads the tail side, creating or deleting a key acts on
@@ -53,11 +55,12 @@ Theorem C02_core_mutators_are_source :
   (forall e n dir re d, DInv d -> run_dmethod dsrc_remove_node_from_edge [e; n] [re] dir [] [] d = d_remove_node_from_edge e n dir re d) /\
   (forall b d, h_net (hs d) = [] -> run_dmethod dsrc_clear [] [b] DirInvalid [] [] d = d_clear b d) /\
   (forall tl hd idx a d, DInv d -> idx <> Some LNone -> has LNone (h_edge (ts d)) = false ->
-     run_dmethod_e dsrc_add_edge_guards1 dsrc_add_edge_guards2 dsrc_add_edge tl hd idx a d = d_add_edge tl hd idx a d).
+     run_dmethod_e dsrc_add_edge_guards1 dsrc_add_edge_guards2 dsrc_add_edge tl hd idx a d = d_add_edge tl hd idx a d) /\
+  (forall n strong re d, DInv d -> run_dmethod dsrc_remove_node [n] [strong; re] DirInvalid [] [] d = d_remove_node n strong re d).
 Proof.
   split; [exact d_add_node_is_source|]. split; [exact d_add_node_to_edge_is_source|]. split; [exact d_remove_edge_is_source|].
   split; [exact d_remove_edges_from_is_source|]. split; [exact d_remove_node_from_edge_is_source|].
-  split; [exact d_clear_is_source|exact d_add_edge_is_source].
+  split; [exact d_clear_is_source|]. split; [exact d_add_edge_is_source|exact d_remove_node_is_source].
 Qed.
 Print Assumptions C02_core_mutators_are_source.
 
@@ -70,7 +73,8 @@ Theorem C02_source_programs_keep_DInv : forall d, DInv d -> h_net (hs d) = [] ->
   (forall e n dir re, DInv (dst_of (run_dmethod dsrc_remove_node_from_edge [e; n] [re] dir [] [] d))) /\
   (forall b, DInv (dst_of (run_dmethod dsrc_clear [] [b] DirInvalid [] [] d))) /\
   (forall tl hd idx a, idx <> Some LNone ->
-     DInv (dst_of (run_dmethod_e dsrc_add_edge_guards1 dsrc_add_edge_guards2 dsrc_add_edge tl hd idx a d))).
+     DInv (dst_of (run_dmethod_e dsrc_add_edge_guards1 dsrc_add_edge_guards2 dsrc_add_edge tl hd idx a d))) /\
+  (forall n strong re, DInv (dst_of (run_dmethod dsrc_remove_node [n] [strong; re] DirInvalid [] [] d))).
 Proof. exact di_source_programs_keep_DInv. Qed.
 Print Assumptions C02_source_programs_keep_DInv.
 
